@@ -84,7 +84,8 @@ class C01(Prop):
             "shapes of gNB name, 1..3 UEs (thorough: ..6), registration counts 0 and negative; AMF choices: RAND, SQN, AMF field, "
             "ngKSI 0..6, AMF-UE-NGAP-ID among 0, 2^32, 2^40-1, 8/16/32/40-bit values (distinct per UE). Compared with the Lean "
             "model: exit status, banner, every uplink octet. The Lean reference AMF (Spec/Amf.lean) then judges the "
-            "IMPLEMENTATION's transcript: spec column = accept | refuse <uplink index:clause …>. non-trivial = a run that "
+            "IMPLEMENTATION's transcript (incl. the complete Registration Request inside the NAS message container of Security Mode "
+            "Complete): spec column = accept | refuse <uplink index:clause …>. non-trivial = a run that "
             "registered at least one UE (exit 0, more than one uplink message); distinct by op line")
     trusted_base = ["the scripted AMF harness/peer (downlink message builders over free5gclib, 5G-AKA vector derivation) produces "
                     "the downlink octets; the Lean judge derives its own vector from the choices and never reads the downlink",
